@@ -353,3 +353,87 @@ class GetattrDelegate(CContract):
 
     def covers(self, cx, ov, info):
         return [("reads", lambda r, s: r != NULL), ("fails", lambda r, s: r == NULL)]
+
+
+@register
+class HasTraitsTrait(CContract):
+    """_has_traits_trait(obj, (name, instance)) -- HasTraits._trait / trait() / base_trait().
+    instance >= -1: whatever get_trait answers.  instance < -1 (base_trait): follow the delegation chain, of ANY length
+    (loop invariant), to the first trait that does not delegate.  C18: every path -- including every way the chain can be
+    broken (delegate missing, not a HasTraits object, target not a trait, recursion limit) -- gives back the references it
+    took: to the current trait, the current delegate and the current attribute name."""
+    qualname = "_has_traits_trait"
+    properties = ("C11",)
+    extra_properties = ("C18",)
+    side_props = {"valid-deref": ("C18",), "bounds": ("C18",)}
+    own = True
+    assumptions = ("A-API", "A-HAVOC", "A-ALLOC", "A-INT", "A-TYPEINV: a delegating trait has a delegate_name; CHasTraits objects have a class-trait dict",
+                   "get_trait (new reference or NULL+error), has_traits_getattro, get_prefix_trait, trait->delegate_attr_name through summaries",
+                   "termination: variant 100 - i")
+
+    def configure(self, cx, ex, ov):
+        from contracts.c.lookup import lookup_env
+        lookup_env(cx)
+        self._own0 = z3.Const("own0", z3.ArraySort(Obj, INT))
+        sd = SetattrDelegate()
+        self._ti = lambda ex2, st: sd.type_invariants(ex2, st)
+        cx.havoc_keeps = lambda api, before, after: self._ti(api.ex, after)
+
+        def get_trait(ex2, args, st, k):
+            st = st.log(("get_trait",) + tuple(args))
+            return ex2.api.python_call(st, "get_trait", lambda r, s: k(r, s.gset("first_trait", r)), lambda s: k(NULL, s), result_prefix="trait")
+        cx.summaries["get_trait"] = get_trait
+
+        def getattro(ex2, args, st, k):
+            st = st.log(("has_traits_getattro",) + tuple(args))
+            return ex2.api.python_call(st, "has_traits_getattro", k, lambda s: k(NULL, s), result_prefix="delegate")
+        cx.summaries["has_traits_getattro"] = getattro
+
+        def attr_name(ex2, fn, args, st, k):
+            r, s1 = ex2.api.fresh_obj("daname", st.log(("delegate_attr_name", fn) + tuple(args)))
+            return k(r, s1)
+        cx.field_call["delegate_attr_name"] = attr_name
+        for nm, code in (("bad_delegate_error", EXC["DelegationError"]), ("bad_delegate_error2", EXC["DelegationError"]),
+                         ("fatal_trait_error", EXC["TraitError"]), ("delegation_recursion_error2", EXC["DelegationError"])):
+            def err(ex2, args, st, k, nm=nm, code=code):
+                e = cx.fresh("exc", INT)
+                return k(z3.IntVal(-1), st.log((nm,) + tuple(args)).assume(z3.Or(e == code, e == EXC["TypeError"])).with_exc(e))
+            cx.summaries[nm] = err
+
+        def inv(ex2, st, entry):
+            own0 = self._own0
+            tr, dele, dan, i = st.env["trait"], st.env["delegate"], st.env["daname"], st.env["i"]
+            o1 = z3.Store(own0, tr, own0[tr] + 1)
+            o2 = z3.Store(o1, dele, o1[dele] + 1)
+            o3 = z3.Store(o2, dan, o2[dan] + 1)
+            out = [("trait-delegate-and-name-each-held-by-one-reference", z3.And(tr != NULL, dele != NULL, dan != NULL, st.own == o3)),
+                   ("no-error-pending", st.exc == 0), ("hop-count-in-range", z3.And(i >= 0, i < 100))]
+            for n in ("obj", "name", "instance"):
+                out.append(("%s-unchanged" % n, st.env[n] == entry.env[n]))
+            return out
+        cx.on_loop = lambda ex2, s, st: ex2.invariant_loop(
+            s, st, {"daname": Obj, "delegate": Obj, "trait": Obj, "i": INT}, inv,
+            variant=lambda ex3, st3: 100 - st3.env["i"], name="delegation-chain")
+
+    def c_setup(self, cx, ex, ov):
+        obj, args = z3.Consts("obj args", Obj)
+        st = CSt().assume(obj != NULL, args != NULL, A.is_inst(args, "PyTuple_Type"), A.subtype(A.type_of(obj), cx.const_obj("has_traits_type")))
+        st = self._ti(ex, st)
+        return st, [obj, args], dict(obj=obj, st0=st, witness={},
+                                     concretise=lambda m: dict(harness="delegate", family="base_trait"))
+
+    def c_post(self, cx, ex, ov, info, ret, st):
+        first = st.ghost.get("first_trait")
+        out = [("post:NULL-iff-error-indicator-set", (ret == NULL) == (st.exc != 0))]
+        inst = st.env.get("instance") if hasattr(st, "env") else None
+        looped = any(r[0] == "python" and str(r[1]).startswith("loop-head:") for r in st.trace)
+        if looped:
+            out.append(("post:base-trait-does-not-delegate", z3.Implies(ret != NULL, ex.field_array(st, "delegate_attr_name")[ret] == 0)))
+        elif first is not None:
+            out.append(("post:without-chain-following-the-answer-is-get_trait's", z3.Implies(ret != NULL, ret == first)))
+        return out + own_neutral(st, info, ret)
+
+    def covers(self, cx, ov, info):
+        return [("returns", lambda r, s: r != NULL),
+                ("follows-the-chain", lambda r, s: z3.And(r != NULL, z3.BoolVal(any(x[0] == "python" and str(x[1]).startswith("loop-head:") for x in s.trace)))),
+                ("fails", lambda r, s: r == NULL)]
